@@ -202,8 +202,19 @@ def monitors (c : Case) : List String :=
   let v6 := if c.status != "ok" && !crashed then [s!"run ended with status '{c.status}'"] else []
   v1 ++ v2 ++ v3 ++ v4 ++ v5 ++ v6
 
+/-- Reference-interpreter monitor: the signal that left the pipeline must be the denotation of
+    the term (the specification), whatever the operational model says. -/
+def denoteMonitor (c : Case) : List String :=
+  match parseTerm (c.get "term") with
+  | some t =>
+    match c.lines.filter (·.startsWith "sig ") with
+    | [l] => if l == "sig " ++ showSig (denote t []) then []
+             else [s!"pipeline signalled '{l}' but the term denotes '{showSig (denote t [])}'"]
+    | _ => []
+  | none => []
+
 def runCase (c : Case) : String :=
-  let mon := monitors c
+  let mon := monitors c ++ denoteMonitor c
   let monS := if mon.isEmpty then "monitors ok" else "monitors FAIL: " ++ " | ".intercalate mon
   let cfg := if c.get "cfg" "fixed" == "pinned" then Cfg.pinned else Cfg.fixed
   match parseTerm (c.get "term"), parseConsumer (c.get "consumer" "recv") with
